@@ -210,8 +210,8 @@ pub fn run(tier: Tier, seed: u64) -> i32 {
         }
     }
     lib_exhaustive(&rep, tier);
-    lib_random(&rep, seed, tier.pick(200_000, 3_000_000));
-    let n = tier.pick(260, 3600);
+    lib_random(&rep, seed, tier.pick(1_000_000, 20_000_000));
+    let n = tier.pick(900, 9000);
     let viols = par_map(n, crate::util::ncpu(), |i| {
         let mut rng = Rng::new(seed).fork(0x0300 + i as u64);
         let sc = cc::gen_scenario(&mut rng, Focus::InPlace, (1, 2), true);
